@@ -138,7 +138,7 @@ def run(R, out):
             else:
                 emit("stream", b(enc(op, None, P)), "A:%s" % name)
     # B. every operand-taking opcode x boundary operands with the EXTENDED_ARG prefixes needed
-    bops = [0, 1, 255, 256, 65535, 65536, 2 ** 24 - 1, 2 ** 24, 2 ** 31 - 1]
+    bops = [0, 1, 255, 256, 65535, 65536, 2 ** 24 - 1, 2 ** 24, 2 ** 31 - 1, 2 ** 31, 2 ** 32 - 1]
     for name, op in sorted(opmap.items()):
         if op not in hasarg or op == P["ext"]:
             continue
